@@ -27,3 +27,12 @@ package utils
 //@   requires its.mutex != nil && its.ctx != nil
 //@   ensures[stays-registered] G.registry == old(G.registry)
 //@   modifies nothing
+
+// TryLock reports success exactly when it took the mutex: a mutex that was taken but reported as "not locked" is never
+// released (the handler only unlocks what it believes to hold) and blocks the key for ever.
+//@ func (*LocalLock).TryLock
+//@   mode math
+//@   props C12 C16
+//@   requires its.mutex != nil && its.ctx != nil
+//@   ensures[reports-success-exactly-when-the-mutex-was-taken] its.mutex.$taken == old(its.mutex.$taken) + (result ? 1 : 0)
+//@   modifies *
